@@ -7,7 +7,7 @@ import contextlib
 
 from autoray import do, shape, infer_backend_multi, get_lib_fn
 
-from .utils import node_from_single
+from .utils import inputs_output_to_eq, node_from_single
 
 
 DEFAULT_IMPLEMENTATION = "auto"
@@ -610,6 +610,15 @@ def extract_contractions(
         If both ``l`` and ``r`` are ``None``, the the operation is a single
         term simplification performed with ``einsum``.
     """
+    if tree.N == 1:
+        # a single tensor: there are no pairwise contractions, so any traces,
+        # sums and the transposition to the output order are one einsum
+        sliced = tree.sliced_inds
+        term = tuple(ix for ix in tree.inputs[0] if ix not in sliced)
+        out = tuple(ix for ix in tree.output if ix not in sliced)
+        eq = inputs_output_to_eq((term,), out, canonicalize=True)
+        return ((node_from_single(0), None, None, False, eq, None),)
+
     contractions = []
 
     # pairwise contractions
@@ -777,7 +786,7 @@ class Contractor:
         for p, l, r, tdot, arg, perm in contractions:
             if (l is None) and (r is None):
                 # single term simplification, perform inplace with einsum
-                temps[p] = _einsum(arg, temps[p])
+                p_array = temps[p] = _einsum(arg, temps[p])
                 continue
 
             # get input arrays for this contraction
